@@ -10,6 +10,8 @@ Decided:
  K4 sibling agreement: each complete_* passes to pop_used lists of the same shape and parameter provenance as its *_nb
     twin passes to add, and returns the mapping of that status byte.
  K5 status mapping: 0 -> Ok, 1 -> IoError, 2 -> Unsupported, anything else -> an error (folded over all 256 values).
+ K7 several requests outstanding, completing in any order: the release path relinks a recycled chain's tail using the
+    link of the descriptor being released (shape rule shared with C03.E6), so descriptors of in-flight requests are not reissued.
  K6 capacity = capacity_low | capacity_high << 32 read at config offsets 0 and 4 (wrapping in read_consistent is C13.G3);
     read-only flag and flush gating are C08.H4.
 Not decided: data integrity and matching of out-of-order completions over histories (delegated to the queue properties).
@@ -37,6 +39,11 @@ def run(F, R):
     k4_siblings(F, R, ops)
     k5_status(F, R)
     k6_capacity(F, R)
+    # K7: outstanding requests may complete in any order - necessary condition on descriptor recycling (C03.E6)
+    from .C03 import e6_relink
+    for _k, _v in roles.items():
+        if _v == 'pop_used':
+            e6_relink(F, R, M, _k, rule='K7')
 
 
 def find_adt(F, pred):
